@@ -86,7 +86,10 @@ Section Proofs.
   Proof. intros. unfold Batch.batch_max. rewrite (map_split_flat _ (@length peak)). reflexivity. Qed.
 
   Lemma fold_max_ge : forall (l : list nat) n, In n l -> (n <= fold_right Nat.max 0%nat l)%nat.
-  Proof. induction l as [|a t IH]; simpl; intros n [H|H]; [subst; lia|specialize (IH _ H); lia]. Qed.
+  Proof.
+    induction l as [|a t IH]; simpl; intros n H; [contradiction|].
+    destruct H as [H|H]; [subst; lia|specialize (IH _ H); lia].
+  Qed.
 
   Lemma flat_nil_iff : forall xs s, flat_peaks s xs = [] <-> (forall x, In x xs -> detect x = []).
   Proof.
@@ -133,8 +136,8 @@ Section Proofs.
                          | ps => [(s_fidx frame s, s_vidx frame s, map (crop_infer (s_img frame s)) ps)]
                          end) fs.
   Proof.
-    intros R fs. unfold Batch.crops_of. induction fs as [|s t IH]; simpl; [reflexivity|].
-    rewrite IH. reflexivity.
+    intros R fs. unfold Batch.crops_of. induction fs as [|s t IH]; [reflexivity|].
+    simpl. apply (f_equal2 (@app _)); [reflexivity|exact IH].
   Qed.
 
   Lemma flat_map_ext_in : forall (A B : Type) (f g : A -> list B) l,
@@ -143,6 +146,9 @@ Section Proofs.
     intros A B f g l H. induction l as [|a t IH]; simpl; [reflexivity|].
     rewrite (H a (or_introl eq_refl)), IH; [reflexivity|]. intros b Hb. apply H. right. exact Hb.
   Qed.
+
+  Lemma flat_map_nil : forall (A B : Type) (l : list A), flat_map (fun _ => @nil B) l = [].
+  Proof. induction l; simpl; auto. Qed.
 
   (* ---------------------------------------------------------------- the main theorem *)
   Theorem topdown_batch_is_per_frame : forall mi (fs : list src),
@@ -153,7 +159,7 @@ Section Proofs.
     - (* no detection in the whole batch: CentroidCrop returns None *)
       pose proof (proj1 (flat_nil_iff _ _) E) as Hall.
       symmetry. rewrite (flat_map_ext_in _ _ _ (fun _ => [])).
-      + induction fs; simpl; auto.
+      + apply flat_map_nil.
       + intros s Hs. unfold Batch.topdown_one.
         rewrite (Hall (s_img frame s)) by (apply in_map; exact Hs).
         destruct mi as [k|]; simpl; [|reflexivity]. destruct (k <? 0)%nat eqn:K; [|reflexivity].
@@ -247,9 +253,9 @@ Section Proofs.
     (0 < n)%nat -> topdown_stream mi n fs = flat_map (topdown_one mi) fs.
   Proof.
     intros mi n fs Hn. unfold Batch.topdown_stream.
-    rewrite (flat_map_ext _ _ _ (fun l => flat_map (topdown_one mi) l)).
+    rewrite (flat_map_ext_in _ _ (topdown_batch mi) (fun l => flat_map (topdown_one mi) l)).
     - rewrite flat_map_concat, concat_chunks by lia. reflexivity.
-    - intro l. apply topdown_batch_is_per_frame.
+    - intros l _. apply topdown_batch_is_per_frame.
   Qed.
 
   (* ---------------------------------------------------------------- top-k by value *)
@@ -395,7 +401,7 @@ Section Proofs.
     nth_error (concat ls) (b * C + c) = match nth_error ls b with Some l => nth_error l c | None => None end.
   Proof.
     intros A. induction ls as [|l t IH]; intros C b c Hlen Hc.
-    - simpl. destruct b; destruct (b * C + c)%nat; reflexivity.
+    - simpl. destruct (b * C + c)%nat; destruct b; reflexivity.
     - destruct b as [|b]; simpl.
       + rewrite nth_error_app1; [reflexivity|]. rewrite (Hlen l (or_introl eq_refl)). exact Hc.
       + rewrite nth_error_app2 by (rewrite (Hlen l (or_introl eq_refl)); lia).
